@@ -234,6 +234,34 @@ func checkC19(p *Prog, r *Report) {
 				initGen = cs.Instr.(ssa.Instruction)
 			}
 		}
+		if setVM == nil && initGen != nil {
+			// the recording may sit in a function InitChainer calls before InitGenesis (one level), on every path of that function
+			for _, cs := range callSites(host) {
+				g := cs.Callee
+				if g == nil || !InModule(g) || g.Blocks == nil || !io.dominates(cs.Instr.(ssa.Instruction), initGen) {
+					continue
+				}
+				gopts := NewOrigin(p, g)
+				for _, cs2 := range callSites(g) {
+					if !strings.HasSuffix(cs2.Name, "x/upgrade/keeper.Keeper).SetModuleVersionMap") {
+						continue
+					}
+					always := true
+					for _, ret := range returnsOf(g) {
+						if !gopts.dominates(cs2.Instr.(ssa.Instruction), ret) {
+							always = false
+						}
+					}
+					args := cs2.Instr.Common().Args
+					if always && len(args) >= 3 {
+						t := gopts.Of(args[2])
+						if t.Op == "call" && strings.HasSuffix(t.Name, "module.Manager).GetVersionMap") {
+							setVM, okArg = cs.Instr.(ssa.Instruction), true
+						}
+					}
+				}
+			}
+		}
 		okDom := setVM != nil && initGen != nil && io.dominates(setVM, initGen)
 		r.Check(okDom && okArg, kp("WIRE", "app.InitChainer#records-module-versions"), "a new chain records the consensus version of every module before the modules are initialised (the upgrade reads them back as fromVM)", p.FnPos(host),
 			"UpgradeKeeper.SetModuleVersionMap(ctx, ModuleManager.GetVersionMap()) dominates ModuleManager.InitGenesis",
